@@ -2,6 +2,7 @@ package main
 
 import (
 	"bufio"
+	"bytes"
 	"fmt"
 	"os"
 	"path/filepath"
@@ -70,6 +71,62 @@ func famCodec(w *bufio.Writer, seed uint64, n int) error {
 		emit(res)
 		emit(L("end"))
 	}
+	// ---- the same through Alloc-built batches: a rejected oversize operation must not disturb
+	// the bytes of the operations allocated around it ----
+	{
+		c, _ := moss.NewCollection(moss.CollectionOptions{})
+		c.Start()
+		big := 1 << 24
+		b, _ := c.NewBatch(6, 2*big+256)
+		res := []sx{"limits"}
+		al := func(s string) []byte { a, _ := b.Alloc(len(s)); copy(a, s); return a }
+		k1, v1 := al("before"), al("1")
+		bigK, _ := b.Alloc(big)
+		for i := range bigK {
+			bigK[i] = 'K'
+		}
+		k2, v2 := al("after"), al("2")
+		b.AllocSet(k1, v1)
+		res = append(res, L("key-2^24", errSx(b.AllocSet(bigK, nil))))
+		b.AllocSet(k2, v2)
+		maxK, _ := b.Alloc(big - 1)
+		for i := range maxK {
+			maxK[i] = 'K'
+		}
+		vy := al("y")
+		res = append(res, L("key-2^24-1", errSx(b.AllocSet(maxK, vy))))
+		err := c.ExecuteBatch(b, moss.WriteOptions{})
+		ss, _ := c.Snapshot()
+		v1g, _ := ss.Get([]byte("before"), moss.ReadOptions{})
+		v2g, _ := ss.Get([]byte("after"), moss.ReadOptions{})
+		probe := bytes.Repeat([]byte{'K'}, big)
+		v3, _ := ss.Get(probe[:big-1], moss.ReadOptions{})
+		v4, _ := ss.Get(probe, moss.ReadOptions{})
+		// the whole content by iteration: exactly three entries
+		n := 0
+		if it, e := ss.StartIterator(nil, nil, moss.IteratorOptions{}); e == nil && it != nil {
+			for {
+				if _, _, e := it.Current(); e != nil {
+					break
+				}
+				n++
+				if it.Next() != nil {
+					break
+				}
+			}
+			it.Close()
+		}
+		if n != 3 {
+			v2g = []byte(fmt.Sprintf("iteration yields %d entries instead of 3", n))
+		}
+		res = append(res, L("exec", errSx(err)), L("before", v1g), L("after", v2g), L("maxkey", v3), L("toolong", v4))
+		ss.Close()
+		b.Close()
+		c.Close()
+		emit(L("case", 2, int64(seed), L("cfg", L("alloc", 1)), L("universe", L())))
+		emit(res)
+		emit(L("end"))
+	}
 	// ---- byte level: persisted segments parsed by the model ----
 	advKeys := [][]byte{{}, []byte("0m1o2s0m1o2s"), []byte("3s4p5s3s4p5s"), {0}, {0xff}, {0, 0}, []byte("a"),
 		[]byte("0m1o2s0m1o2s\x04\x00\x00\x00"), []byte("k")}
@@ -132,7 +189,7 @@ func famCodec(w *bufio.Writer, seed uint64, n int) error {
 		fs.Close()
 		c.Close()
 		s.Close()
-		emit(L("case", i+2, int64(cs), L("cfg"), L("universe", L())))
+		emit(L("case", i+3, int64(cs), L("cfg"), L("universe", L())))
 		if len(d.Locs) >= 1 && len(d.Segs) >= 1 {
 			loc := d.Locs[len(d.Locs)-1]
 			seg := []sx{"seg"}
